@@ -263,7 +263,8 @@ def run(ctx):
     cachebfs.explore(ctx, Cfg(12, 1, 1, ("wt", "wb")[seed % 2], "lru", 1, "word", False, "base"), WANT, 1 if ctx.quick else 2)
     for g, policy in closure:
         for kind in ("wb", "wt"):
-            cachebfs.explore(ctx, Cfg(*g, kind, policy, pens[k % 3], "control", False, "base", True), WANT, 60)
+            # two closure spaces in three run over a preloaded backing store: the memory table then has rows (an observer that walks them is an operation)
+            cachebfs.explore(ctx, Cfg(*g, kind, policy, pens[k % 3], "control", bool(k % 3), "base", True), WANT, 60)
             k += 1
     ctx.require("cache-eviction", "cache-fill", "cache-hit", "cache-miss", "rejected")
     cachebfs.deep_paths(ctx, WANT)
